@@ -1,13 +1,11 @@
-import Evenio.Proofs.HoareOk
+import Evenio.Proofs.Hoare
 import Evenio.Proofs.DeliverOneFifo
 import Evenio.Proofs.DropQueued
-/-! Per-delivery disposition of the delivered event, in terms of the event ledger `edrops`: on normal return of
-    `deliverOne it` the ledger has been extended by `it` — once — or not at all, according to what happened to `it`
-    (dead target / taken by a handler / normal kind / built-in kind), and by nothing else. -/
+/-! Per-delivery disposition of the delivered event, in terms of the event ledger `edrops` and the ownership flag
+    `inflightOwned` (`EventDropper.ownership_flag`): the delivered event is written to the ledger — once — exactly when
+    it is destroyed (by a handler's `take`, by the unwinding guard, after the handler loop, or because its target is
+    dead), and a delivery writes nothing else to the ledger, except the one event a failing `Sender::send` rejects. -/
 namespace Evenio
-
-/-- the invariant: the event ledger is `l` -/
-abbrev ED (l : List Nat) : World → Prop := fun w => w.edrops = l
 
 /-- ledger effect of `dropEvent it` on `edrops` -/
 def dropE (it : QItem) (l : List Nat) : List Nat :=
@@ -15,48 +13,59 @@ def dropE (it : QItem) (l : List Nat) : List Nat :=
   | .g _ | .t _ => it.pay.serial :: l
   | _ => l
 
-section
-variable {l : List Nat}
-theorem logT_ed (s : String) : Keeps (ED l) (logT s) := by unfold logT; keeps
-macro_rules | `(tactic| keeps_leaf) => `(tactic| exact logT_ed _)
-theorem ubErr_ed {α : Type} (s : String) : Keeps (ED l) (ubErr s : M α) := by unfold ubErr; keeps
-macro_rules | `(tactic| keeps_leaf) => `(tactic| exact ubErr_ed _)
-theorem dbgAssert_ed (c : Bool) (s : String) : Keeps (ED l) (dbgAssert c s) := by unfold dbgAssert; keeps
-macro_rules | `(tactic| keeps_leaf) => `(tactic| exact dbgAssert_ed _ _)
-theorem getArch_ed (i : Nat) (s : String) : Keeps (ED l) (getArch i s) := by unfold getArch; keeps
-macro_rules | `(tactic| keeps_leaf) => `(tactic| exact getArch_ed _ _)
-theorem setArch_ed (a : Arch) : Keeps (ED l) (setArch a) := by unfold setArch; keeps
-macro_rules | `(tactic| keeps_leaf) => `(tactic| exact setArch_ed _)
-theorem reserve_ed : Keeps (ED l) (reserve) := by unfold reserve; keeps
-macro_rules | `(tactic| keeps_leaf) => `(tactic| exact reserve_ed)
-theorem takeBudget_ed : Keeps (ED l) (takeBudget) := by unfold takeBudget; keeps
-macro_rules | `(tactic| keeps_leaf) => `(tactic| exact takeBudget_ed)
-theorem freshE_ed : Keeps (ED l) (freshE) := by unfold freshE; keeps
-macro_rules | `(tactic| keeps_leaf) => `(tactic| exact freshE_ed)
-theorem freshC_ed : Keeps (ED l) (freshC) := by unfold freshC; keeps
-macro_rules | `(tactic| keeps_leaf) => `(tactic| exact freshC_ed)
-theorem push_ed (it : QItem) : Keeps (ED l) (push it) := by unfold push; keeps
-macro_rules | `(tactic| keeps_leaf) => `(tactic| exact push_ed _)
-theorem paramRows_ed (p : Param) : Keeps (ED l) (paramRows p) := by unfold paramRows; keeps
-macro_rules | `(tactic| keeps_leaf) => `(tactic| exact paramRows_ed _)
-theorem itemAt_ed (st : AS) (a : Arch) (row : Nat) : Keeps (ED l) (itemAt st a row) := by unfold itemAt; keeps
-macro_rules | `(tactic| keeps_leaf) => `(tactic| exact itemAt_ed _ _ _)
-theorem paramGet_ed (p : Param) (id : Key) : Keeps (ED l) (paramGet p id) := by unfold paramGet; keeps
-macro_rules | `(tactic| keeps_leaf) => `(tactic| exact paramGet_ed _ _)
-theorem bumpCell_ed (ai row c : Nat) : Keeps (ED l) (bumpCell ai row c) := by unfold bumpCell; keeps
-macro_rules | `(tactic| keeps_leaf) => `(tactic| exact bumpCell_ed _ _ _)
-theorem getParam_ed (h : HInfo) (p : Nat) : Keeps (ED l) (getParam h p) := by unfold getParam; keeps
-macro_rules | `(tactic| keeps_leaf) => `(tactic| exact getParam_ed _ _)
+/-- a predicate on the ownership flag and the event ledger -/
+abbrev LFR (R : Bool → List Nat → Prop) : World → Prop := fun w => R w.inflightOwned w.edrops
 
-/-- `Sender::send` on normal return has not destroyed anything (the drop of a rejected event is on a panicking path) -/
-theorem senderPush_ok (h : HInfo) (it : QItem) : HoareOk (ED l) (senderPush h it) (fun _ => ED l) := by
-  unfold senderPush
-  hoare_inv
+section leaves
+variable {R : Bool → List Nat → Prop}
+theorem logT_lf (s : String) : Keeps (LFR R) (logT s) := by unfold logT; keeps
+macro_rules | `(tactic| keeps_leaf) => `(tactic| exact logT_lf _)
+theorem ubErr_lf {α : Type} (s : String) : Keeps (LFR R) (ubErr s : M α) := by unfold ubErr; keeps
+macro_rules | `(tactic| keeps_leaf) => `(tactic| exact ubErr_lf _)
+theorem dbgAssert_lf (c : Bool) (s : String) : Keeps (LFR R) (dbgAssert c s) := by unfold dbgAssert; keeps
+macro_rules | `(tactic| keeps_leaf) => `(tactic| exact dbgAssert_lf _ _)
+theorem getArch_lf (i : Nat) (s : String) : Keeps (LFR R) (getArch i s) := by unfold getArch; keeps
+macro_rules | `(tactic| keeps_leaf) => `(tactic| exact getArch_lf _ _)
+theorem setArch_lf (a : Arch) : Keeps (LFR R) (setArch a) := by unfold setArch; keeps
+macro_rules | `(tactic| keeps_leaf) => `(tactic| exact setArch_lf _)
+theorem reserve_lf : Keeps (LFR R) (reserve) := by unfold reserve; keeps
+macro_rules | `(tactic| keeps_leaf) => `(tactic| exact reserve_lf)
+theorem takeBudget_lf : Keeps (LFR R) (takeBudget) := by unfold takeBudget; keeps
+macro_rules | `(tactic| keeps_leaf) => `(tactic| exact takeBudget_lf)
+theorem freshE_lf : Keeps (LFR R) (freshE) := by unfold freshE; keeps
+macro_rules | `(tactic| keeps_leaf) => `(tactic| exact freshE_lf)
+theorem freshC_lf : Keeps (LFR R) (freshC) := by unfold freshC; keeps
+macro_rules | `(tactic| keeps_leaf) => `(tactic| exact freshC_lf)
+theorem push_lf (it : QItem) : Keeps (LFR R) (push it) := by unfold push; keeps
+macro_rules | `(tactic| keeps_leaf) => `(tactic| exact push_lf _)
+theorem paramRows_lf (p : Param) : Keeps (LFR R) (paramRows p) := by unfold paramRows; keeps
+macro_rules | `(tactic| keeps_leaf) => `(tactic| exact paramRows_lf _)
+theorem itemAt_lf (st : AS) (a : Arch) (row : Nat) : Keeps (LFR R) (itemAt st a row) := by unfold itemAt; keeps
+macro_rules | `(tactic| keeps_leaf) => `(tactic| exact itemAt_lf _ _ _)
+theorem paramGet_lf (p : Param) (id : Key) : Keeps (LFR R) (paramGet p id) := by unfold paramGet; keeps
+macro_rules | `(tactic| keeps_leaf) => `(tactic| exact paramGet_lf _ _)
+theorem bumpCell_lf (ai row c : Nat) : Keeps (LFR R) (bumpCell ai row c) := by unfold bumpCell; keeps
+macro_rules | `(tactic| keeps_leaf) => `(tactic| exact bumpCell_lf _ _ _)
+theorem getParam_lf (h : HInfo) (p : Nat) : Keeps (LFR R) (getParam h p) := by unfold getParam; keeps
+macro_rules | `(tactic| keeps_leaf) => `(tactic| exact getParam_lf _ _)
+end leaves
 
-macro_rules | `(tactic| hoare_leaf) => `(tactic| exact senderPush_ok _ _)
+/-- flag is `b`, and the delivered event `it` has been written to the ledger `l` iff the flag is set -/
+abbrev T (it : QItem) (l : List Nat) (b : Bool) : World → Prop :=
+  LFR fun f e => f = b ∧ e = if b then dropE it l else l
 
-/-- the ledger after a handler action: the received event dropped iff the action took it -/
-abbrev Took (it : QItem) (l : List Nat) (r : Bool) : World → Prop := fun w => w.edrops = if r then dropE it l else l
+/-- state at an exceptional exit of a handler: as `T`, plus at most one more ledger entry `rej` — the event a
+    failing `Sender::send` rejected and destroyed on its way out -/
+def XR (it : QItem) (l : List Nat) : Bool → List Nat → Prop :=
+  fun f e => ∃ rej : List Nat, rej.length ≤ 1 ∧ e = rej ++ (if f then dropE it l else l)
+
+abbrev X (it : QItem) (l : List Nat) : Err → World → Prop := fun _ => LFR (XR it l)
+
+theorem T_X {it : QItem} {l : List Nat} {b : Bool} {e : Err} {w : World} (h : T it l b w) : X it l e w := by
+  obtain ⟨hf, he⟩ := h
+  refine ⟨[], by simp, ?_⟩
+  show w.edrops = [] ++ (if w.inflightOwned = true then dropE it l else l)
+  rw [hf, he]; rfl
 
 theorem dropEventW_edrops (it : QItem) (w : World) : (dropEventW it w).edrops = dropE it w.edrops := by
   obtain ⟨ty, idx, tgt, pay⟩ := it
@@ -65,84 +74,182 @@ theorem dropEventW_edrops (it : QItem) (w : World) : (dropEventW it w).edrops = 
   simp only [dropEventW, dropCellW, dropE]
   split <;> rfl
 
-theorem dropEvent_ok (it : QItem) : HoareOk (ED l) (dropEvent it) (fun _ w => w.edrops = dropE it l) :=
-  ⟨fun w hw a w' hr => by
-    rw [run_dropEvent] at hr
-    cases hr
-    rw [dropEventW_edrops, hw]⟩
+theorem dropEventW_flag (it : QItem) (w : World) : (dropEventW it w).inflightOwned = w.inflightOwned := by
+  obtain ⟨ty, idx, tgt, pay⟩ := it
+  cases ty <;> try rfl
+  rename_i k
+  simp only [dropEventW, dropCellW]
+  split <;> rfl
 
-theorem runAct_ok (hk : Key) (it : QItem) (loc : Loc) (act : Act) :
-    HoareOk (ED l) (runAct hk it loc act) (Took it l) := by
+theorem dropE_length_le (x : QItem) (l : List Nat) : ∃ rej : List Nat, rej.length ≤ 1 ∧ dropE x l = rej ++ l := by
+  obtain ⟨ty, idx, tgt, pay⟩ := x
+  cases ty <;> first | exact ⟨[], by simp, rfl⟩ | exact ⟨[pay.serial], by simp, rfl⟩
+
+local macro_rules | `(tactic| hoare2_err) => `(tactic| first | exact fun _ h => T_X h | exact fun _ _ h => T_X h)
+
+section
+variable {l : List Nat} {b : Bool}
+
+/-- `Sender::send`: on normal return nothing was destroyed; when the event is rejected it is destroyed, then the
+    call panics -/
+theorem senderPush_spec (it : QItem) (h : HInfo) (x : QItem) :
+    Hoare (T it l b) (senderPush h x) (fun _ => T it l b) (X it l) := by
+  unfold senderPush
+  split
+  · refine ⟨fun w hw => ?_⟩
+    rw [run_bind, run_dropEvent]
+    simp only [run_throw]
+    obtain ⟨hf, he⟩ := hw
+    obtain ⟨rej, hr, hrej⟩ := dropE_length_le x w.edrops
+    refine ⟨rej, hr, ?_⟩
+    rw [dropEventW_edrops, dropEventW_flag, hrej, hf, he]
+  · hoare2_inv
+
+local macro_rules | `(tactic| hoare2_leaf) => `(tactic| exact senderPush_spec _ _ _)
+
+/-- a handler action: it returns `true` iff it took the event, which it can only do while the flag is clear; taking
+    sets the flag and writes the event to the ledger -/
+theorem runAct_spec (hk : Key) (it : QItem) (loc : Loc) (act : Act) :
+    Hoare (T it l b) (runAct hk it loc act) (fun r => T it l (r || b)) (X it l) := by
   unfold runAct
-  refine HoareOk.get_bind fun w hw => ?_
+  refine Hoare.get_bind fun w hw => ?_
   split
   · split
-    all_goals try (hoare_inv; done)
+    all_goals try (hoare2_inv; done)
     -- what is left is `take`
     dsimp only
     split
-    · refine HoareOk.bind_inv (HoareOk.of_keeps (logT_ed _)) fun _ => ?_
-      exact HoareOk.bind (dropEvent_ok it) fun _ => HoareOk.pure fun _ h => h
-    · exact HoareOk.pure fun _ h => h
-  · hoare_inv
+    · rename_i hc
+      have hb : b = false := by
+        have : w.inflightOwned = false := by
+          cases hf : w.inflightOwned
+          · rfl
+          · rw [hf] at hc; simp at hc
+        exact hw.1.symm.trans this
+      subst hb
+      refine ⟨fun w2 hw2 => ?_⟩
+      simp only [logT, run_bind, run_modify, run_dropEvent, run_pure]
+      refine ⟨rfl, ?_⟩
+      show (dropEventW it _).edrops = dropE it l
+      rw [dropEventW_edrops]
+      exact congrArg (dropE it) hw2.2
+    · exact Hoare.pure fun _ h => h
+  · hoare2_inv
+theorem T_bool {it : QItem} {b1 b2 : Bool} {w : World} (hb : b1 = b2) (h : T it l b1 w) : T it l b2 w := hb ▸ h
 
-/-- the body loop of `runHandler`: invariant "dropped iff owned"; once owned, the remaining actions are skipped -/
+/-- the body loop of `runHandler`: the flag after the loop is the flag before or-ed with "some action took" -/
 theorem bodyLoop_rule {γ : Type} {acts : List γ} {rd : Bool} {sd : List Nat}
     {f : γ → Bool × Bool × List Nat → M (ForInStep (Bool × Bool × List Nat))} {it : QItem}
-    (h0 : ∀ a rd sd, HoareOk (ED l) (f a (false, rd, sd)) (fun r => Took it l r.value.1))
-    (h1 : ∀ a rd sd, f a (true, rd, sd) = pure (ForInStep.yield (true, rd, sd))) :
-    HoareOk (ED l) (forIn acts (false, rd, sd) f >>= fun s => pure s.1) (Took it l) := by
-  refine HoareOk.bind (R := fun (s : Bool × Bool × List Nat) w => Took it l s.1 w) ?_ (fun s => HoareOk.pure fun _ h => h)
-  refine HoareOk.pre (HoareOk.forIn_list (fun (s : Bool × Bool × List Nat) w => Took it l s.1 w) ?_) (fun _ h => h)
+    (h0 : ∀ a o rd sd, Hoare (T it l (o || b)) (f a (o, rd, sd)) (fun r => T it l (r.value.1 || b)) (X it l)) :
+    Hoare (T it l b) (forIn acts (false, rd, sd) f >>= fun s => pure s.1) (fun o => T it l (o || b)) (X it l) := by
+  refine Hoare.bind (R := fun (s : Bool × Bool × List Nat) => T it l (s.1 || b)) ?_
+    (fun s => Hoare.pure fun _ h => h)
+  refine Hoare.pre (Hoare.forIn_list (fun (s : Bool × Bool × List Nat) => T it l (s.1 || b)) ?_) (fun _ h => h)
   rintro a ⟨o, rd, sd⟩
-  cases o
-  · exact h0 a rd sd
-  · rw [h1]
-    exact HoareOk.pure fun _ h => h
+  exact h0 a o rd sd
 
 local macro_rules
-  | `(tactic| hoare_special) => `(tactic| first
-      | exact HoareOk.bind (runAct_ok _ _ _ _) (fun _ => HoareOk.pure fun _ h => h)
-      | refine bodyLoop_rule (fun _ _ _ => ?_) (fun _ _ _ => rfl))
+  | `(tactic| hoare2_special) => `(tactic| first
+      | exact Hoare.bind (runAct_spec _ _ _ _) (fun r => Hoare.pure fun _ h =>
+          T_bool (by simp [Bool.or_assoc, Bool.or_comm, Bool.or_left_comm]) h)
+      | refine bodyLoop_rule (fun _ _ _ _ => ?_))
 
-theorem runHandler_ok (hk : Key) (it : QItem) (loc : Loc) :
-    HoareOk (ED l) (runHandler hk it loc) (Took it l) := by
+/-- a handler run: it returns `true` iff one of its actions took the event; the flag and the ledger follow -/
+theorem runHandler_spec (hk : Key) (it : QItem) (loc : Loc) :
+    Hoare (T it l b) (runHandler hk it loc) (fun o => T it l (o || b)) (X it l) := by
   unfold runHandler
-  refine HoareOk.get_bind fun w hw => ?_
+  refine Hoare.get_bind fun w hw => ?_
   split
-  · refine HoareOk.bind_inv (HoareOk.of_keeps (logT_ed _)) fun _ => ?_
+  · refine Hoare.bind_inv (Hoare.of_keeps (logT_lf _) (fun _ _ h => T_X h)) fun _ => ?_
     dsimp only
-    hoare_inv
-  · hoare_inv
+    hoare2_inv
+  · hoare2_inv
+end
 
-/-- the unwinding handler of `deliverOne`'s `tryCatch` always rethrows -/
-theorem rethrow_never_ok (it : QItem) (info : EvInfo) (e : Err) (w : World) (a : Bool) (w' : World) :
+/-- what the unwinding handler of `deliverOne` (first half of `EventDropper::drop`) does: on a panic it drops the
+    in-flight event unless the flag is set (or there is no drop function); then it rethrows -/
+theorem unwind_run (it : QItem) (info : EvInfo) (e : Err) (w : World) :
     ((do
         match e with
-        | .panic _ => if info.needsDrop then dropEvent it
+        | .panic _ => if !(← get).inflightOwned && info.needsDrop then dropEvent it
         | _ => pure ()
-        throw e : M Bool)).run.run w ≠ (.ok a, w') := by
-  intro h
-  cases e <;> dsimp only at h
-  · cases h
-  · cases h
-  · split at h
-    · rw [run_bind, run_dropEvent] at h
-      cases h
-    · cases h
+        throw e : M Bool)).run.run w =
+      (.error e, match e with
+        | .panic _ => if (!w.inflightOwned && info.needsDrop) = true then dropEventW it w else w
+        | _ => w) := by
+  cases e <;> dsimp only
+  · rfl
+  · rfl
+  · rw [run_bind, run_get]
+    dsimp only
+    split
+    · rw [run_bind, run_dropEvent]; rfl
+    · rfl
 
-/-- the handler loop: on normal return the delivered event has been dropped (once) iff a handler took it -/
-theorem handlerPhase_ok (it : QItem) (info : EvInfo) (loc : Loc) (hs : List Key) :
-    HoareOk (ED l) (handlerPhase it info loc hs) (Took it l) := by
-  unfold handlerPhase
-  refine HoareOk.pre (HoareOk.forIn_list (fun (o : Bool) w => Took it l o w) ?_) (fun _ h => h)
+/-- state in which the handler loop is left by an exception: on a panic the in-flight event has been written to the
+    ledger exactly once — by a `take` (flag set; the guard did not drop it again) or by the guard (flag clear) —
+    provided it has a drop function; `rej` is the event a failing send rejected, if any -/
+def XL (it : QItem) (l : List Nat) (info : EvInfo) : Err → World → Prop :=
+  fun e w => ∃ rej : List Nat, rej.length ≤ 1 ∧
+    match e with
+    | .panic _ =>
+      (w.inflightOwned = true ∧ w.edrops = rej ++ dropE it l) ∨
+      (w.inflightOwned = false ∧ w.edrops = if info.needsDrop then dropE it (rej ++ l) else rej ++ l)
+    | _ => True
+
+section
+variable {l : List Nat}
+
+theorem unwind_spec (it : QItem) (info : EvInfo) (e : Err) (Q : Bool → World → Prop) :
+    Hoare (X it l e)
+      (do
+        match e with
+        | .panic _ => if !(← get).inflightOwned && info.needsDrop then dropEvent it
+        | _ => pure ()
+        throw e : M Bool) Q (XL it l info) := by
+  refine ⟨fun w hw => ?_⟩
+  rw [unwind_run]
+  obtain ⟨rej, hr, he⟩ := hw
+  refine ⟨rej, hr, ?_⟩
+  cases e with
+  | ub s => trivial
+  | assert s => trivial
+  | panic c =>
+    dsimp only
+    cases hf : w.inflightOwned
+    · right
+      rw [hf] at he
+      cases hn : info.needsDrop
+      · simp only [Bool.not_false, Bool.and_false, Bool.false_eq_true, if_false]
+        exact ⟨hf, he⟩
+      · simp only [Bool.not_false, Bool.and_true, if_true]
+        exact ⟨by rw [dropEventW_flag, hf], by rw [dropEventW_edrops]; exact congrArg (dropE it) he⟩
+    · left
+      rw [hf] at he
+      simp only [Bool.not_true, Bool.false_and, Bool.false_eq_true, if_false]
+      exact ⟨hf, he⟩
+
+/-- the handler loop of a delivery, started with the flag clear and ledger `l` -/
+theorem handlerLoop_spec (it : QItem) (info : EvInfo) (loc : Loc) (hs : List Key) :
+    Hoare (T it l false) (handlerLoop it info loc hs) (fun o => T it l o) (XL it l info) := by
+  unfold handlerLoop
+  refine Hoare.pre (Hoare.forIn_list (fun (o : Bool) => T it l o) ?_) (fun _ h => h)
   intro hk o
   cases o
   · rw [if_pos (show (!false) = true from rfl)]
-    refine HoareOk.bind (R := fun r w => Took it l r w) ?_ (fun r => HoareOk.pure fun _ h => h)
-    exact HoareOk.tryCatch_rethrow (runHandler_ok hk it loc) (fun e w a w' => rethrow_never_ok it info e w a w')
+    refine Hoare.bind (R := fun r => T it l r) ?_ (fun r => Hoare.pure fun _ h => h)
+    refine Hoare.tryCatch (E1 := X it l)
+      (Hoare.post (runHandler_spec (b := false) hk it loc) (fun o w h => T_bool (Bool.or_false o) h) (fun _ _ h => h))
+      (fun e => unwind_spec it info e _)
   · rw [if_neg (show ¬ (!true) = true by decide)]
-    exact HoareOk.pure fun _ h => h
+    exact Hoare.pure fun _ h => h
+
+theorem handlerPhase_spec (it : QItem) (info : EvInfo) (loc : Loc) (hs : List Key) :
+    Hoare (fun w => w.edrops = l) (handlerPhase it info loc hs) (fun o => T it l o) (XL it l info) := by
+  refine ⟨fun w hw => ?_⟩
+  rw [handlerPhase_run]
+  exact (handlerLoop_spec it info loc hs).run { w with inflightOwned := false } ⟨rfl, hw⟩
+
 end
 
 /-- the registry entry `deliverOne` works with is the one `dropQueued` would use (`World.evInfo`) -/
@@ -174,7 +281,36 @@ theorem lookupPhase_info {it : QItem} {w w0 w1 : World} {info : EvInfo} {hs : Op
       · cases h
     · cases h
 
-/-- **Disposition of the delivered event (ledger form).** -/
+theorem getArch_error_ub {i : Nat} {site : String} {w w' : World} {e : Err}
+    (h : (getArch i site).run.run w = (.error e, w')) : ∃ s, e = .ub s := by
+  unfold getArch at h
+  rw [run_bind, run_get] at h
+  dsimp only at h
+  split at h
+  · cases h
+  · cases h; exact ⟨_, rfl⟩
+
+/-- the lookup phase fails only with `ub` -/
+theorem lookupPhase_error_ub {it : QItem} {w w0 w1 : World} {e : Err}
+    (h : (lookupPhase it w).run.run w0 = (.error e, w1)) : ∃ s, e = .ub s := by
+  unfold lookupPhase at h
+  split at h
+  · split at h
+    · split at h
+      · cases h
+      · rw [run_bind] at h
+        generalize hg : (getArch _ _).run.run w0 = r at h
+        obtain ⟨(e'|a), w2⟩ := r
+        · cases h; exact getArch_error_ub hg
+        · cases h
+    · cases h; exact ⟨_, rfl⟩
+  · split at h
+    · split at h
+      · cases h
+      · cases h; exact ⟨_, rfl⟩
+    · cases h; exact ⟨_, rfl⟩
+
+/-- **Disposition of the delivered event (ledger form), normal return.** -/
 theorem deliverOne_edrops {it : QItem} {w w' : World} (h : (deliverOne it).run.run w = (.ok (), w')) :
     ∃ info hs loc w1,
       (lookupPhase it w).run.run w = (.ok (info, hs, loc), w1) ∧ w.evInfo it = some info ∧
@@ -182,21 +318,18 @@ theorem deliverOne_edrops {it : QItem} {w w' : World} (h : (deliverOne it).run.r
       | none =>          -- dead target
         w'.edrops = if info.needsDrop then dropE it w.edrops else w.edrops
       | some hs =>
-        ∃ owned wh, (handlerPhase it info loc hs).run.run w1 = (.ok owned, wh) ∧
+        ∃ owned wh, (handlerPhase it info loc hs).run.run w1 = (.ok owned, wh) ∧ wh.inflightOwned = owned ∧
           w'.edrops =
             if owned then dropE it w.edrops                      -- taken: dropped by the handler's `take`
             else if info.kind = .normal ∧ info.needsDrop then dropE it w.edrops   -- normal kind: dropped after the loop
             else w.edrops := by                                  -- Insert / Remove / Spawn / Despawn, or nothing to drop
-  rw [deliverOne_phases, run_bind, run_get] at h
-  simp only at h
-  rw [run_bind] at h
+  rw [deliverOne_run] at h
   have he1 := (lookupPhase_ef (ef := w.effFrame) it w).run w rfl
   generalize hl : (lookupPhase it w).run.run w = r at h he1
   obtain ⟨(e|⟨info, hs, loc⟩), w1⟩ := r
   · cases h
   · have hw1 : w1.edrops = w.edrops := congrArg EffFrame.edrops he1
     refine ⟨info, hs, loc, w1, rfl, lookupPhase_info hl, ?_⟩
-    simp only at h
     cases hs with
     | none =>
       simp only at h ⊢
@@ -210,22 +343,20 @@ theorem deliverOne_edrops {it : QItem} {w w' : World} (h : (deliverOne it).run.r
         rw [if_neg hn, hw1]
     | some hs =>
       simp only at h ⊢
-      rw [run_bind] at h
       generalize hh : (handlerPhase it info loc hs).run.run w1 = r at h
       obtain ⟨(e|owned), wh⟩ := r
       · cases h
-      · refine ⟨owned, wh, rfl, ?_⟩
-        have hwh := (handlerPhase_ok (l := w.edrops) it info loc hs).run w1 hw1 owned wh hh
-        simp only at h
-        rw [run_bind, run_modify] at h
+      · have hwh := (handlerPhase_spec (l := w.edrops) it info loc hs).ok hw1 hh
+        refine ⟨owned, wh, rfl, hwh.1, ?_⟩
+        have hwe : wh.edrops = if owned = true then dropE it w.edrops else w.edrops := hwh.2
         simp only at h
         cases owned with
         | true =>
-          simp only [if_true, run_pure] at h
+          simp only [if_true] at h
           cases h
-          exact hwh
+          exact hwe
         | false =>
-          simp only [Bool.false_eq_true, if_false] at h hwh ⊢
+          simp only [Bool.false_eq_true, if_false] at h hwe ⊢
           by_cases hk : info.kind = .normal
           · unfold effectPhase at h
             rw [hk] at h
@@ -235,16 +366,74 @@ theorem deliverOne_edrops {it : QItem} {w w' : World} (h : (deliverOne it).run.r
               rw [run_dropEvent] at h
               cases h
               rw [if_pos ⟨hk, hn⟩, dropEventW_edrops]
-              exact congrArg (dropE it) hwh
+              exact congrArg (dropE it) hwe
             · rename_i hn
               cases h
               rw [if_neg (fun hc => hn hc.2)]
-              exact hwh
+              exact hwe
           · have := (effectPhase_ef (ef := ({ wh with queue := wh.queue.reverse } : World).effFrame) it info loc hk).run
               { wh with queue := wh.queue.reverse } rfl
             rw [h] at this
             have he : w'.edrops = wh.edrops := congrArg EffFrame.edrops this
             rw [if_neg (fun hc => hk hc.1), he]
-            exact hwh
+            exact hwe
+
+/-- **Disposition of the delivered event (ledger form), panic.** When `deliverOne it` throws `panic c`: either the
+    panic came out of the handler loop — then, with `rej` the (at most one) event a failing send rejected, the ledger is
+    `rej ++ dropE it l` with the flag set (a handler took the event; the guard did not drop it again) or
+    `dropE it (rej ++ l)` with the flag clear (the guard dropped it; without a drop function: `rej ++ l`) — or it came
+    out of the built-in effect, which is only run for an event nobody took and never for the `normal` kind: then the
+    ledger is unchanged. -/
+theorem deliverOne_panic_edrops {it : QItem} {w w' : World} {c : String}
+    (h : (deliverOne it).run.run w = (.error (.panic c), w')) :
+    ∃ info, w.evInfo it = some info ∧
+      ((∃ rej : List Nat, rej.length ≤ 1 ∧
+          ((w'.inflightOwned = true ∧ w'.edrops = rej ++ dropE it w.edrops) ∨
+           (w'.inflightOwned = false ∧
+              w'.edrops = if info.needsDrop then dropE it (rej ++ w.edrops) else rej ++ w.edrops))) ∨
+       (info.kind ≠ .normal ∧ w'.inflightOwned = false ∧ w'.edrops = w.edrops)) := by
+  rw [deliverOne_run] at h
+  have he1 := (lookupPhase_ef (ef := w.effFrame) it w).run w rfl
+  generalize hl : (lookupPhase it w).run.run w = r at h he1
+  obtain ⟨(e|⟨info, hs, loc⟩), w1⟩ := r
+  · cases h
+    obtain ⟨s, hs⟩ := lookupPhase_error_ub hl
+    cases hs
+  · have hw1 : w1.edrops = w.edrops := congrArg EffFrame.edrops he1
+    refine ⟨info, lookupPhase_info hl, ?_⟩
+    cases hs with
+    | none =>
+      simp only at h
+      split at h
+      · rw [run_dropEvent] at h; cases h
+      · cases h
+    | some hs =>
+      simp only at h
+      generalize hh : (handlerPhase it info loc hs).run.run w1 = r at h
+      obtain ⟨(e|owned), wh⟩ := r
+      · cases h
+        left
+        exact (handlerPhase_spec (l := w.edrops) it info loc hs).err hw1 hh
+      · have hwh := (handlerPhase_spec (l := w.edrops) it info loc hs).ok hw1 hh
+        simp only at h
+        cases owned with
+        | true => simp only [if_true] at h; cases h
+        | false =>
+          simp only [Bool.false_eq_true, if_false] at h
+          right
+          have hk : info.kind ≠ .normal := by
+            intro hk
+            unfold effectPhase at h
+            rw [hk] at h
+            simp only at h
+            split at h
+            · rw [run_dropEvent] at h; cases h
+            · cases h
+          have := (effectPhase_ef (ef := ({ wh with queue := wh.queue.reverse } : World).effFrame) it info loc hk).run
+            { wh with queue := wh.queue.reverse } rfl
+          rw [h] at this
+          refine ⟨hk, ?_, ?_⟩
+          · exact (congrArg EffFrame.inflightOwned this).trans hwh.1
+          · exact (congrArg EffFrame.edrops this).trans hwh.2
 
 end Evenio
